@@ -40,6 +40,8 @@ pub enum Action {
     GMask,
     /// bundle, unscoped, valid_until in 2020 -> p1
     GExpired,
+    /// [read, create, update, archive], classifications=[public] -> p1
+    GWrite,
     /// bundle, unscoped -> p2 directly
     GAll2,
     /// group g gains member p1 / p2
@@ -72,14 +74,14 @@ pub enum Action {
 
 pub const QUICK_ALPHABET: &[Action] = &[
     Action::GAll, Action::GKind, Action::GType, Action::GClass, Action::GElem, Action::GCeil,
-    Action::GMask, Action::GExpired, Action::GrpAdd2, Action::GGroup, Action::Del, Action::DelKind,
+    Action::GMask, Action::GExpired, Action::GWrite, Action::GrpAdd2, Action::GGroup, Action::Del, Action::DelKind,
     Action::DelSys, Action::ReDel, Action::Pol1, Action::Pol2, Action::RevokeOld, Action::RevokeDel,
     Action::Suspend1,
 ];
 
 pub const FULL_ALPHABET: &[Action] = &[
     Action::GAll, Action::GKind, Action::GType, Action::GClass, Action::GElem, Action::GCeil,
-    Action::GMask, Action::GExpired, Action::GAll2, Action::GrpAdd1, Action::GrpAdd2, Action::GGroup,
+    Action::GMask, Action::GExpired, Action::GWrite, Action::GAll2, Action::GrpAdd1, Action::GrpAdd2, Action::GGroup,
     Action::Del, Action::DelKind, Action::DelSys, Action::ReDel, Action::Pol1, Action::Pol2,
     Action::RevokeOld, Action::RevokeNew, Action::RevokeDel, Action::Suspend1, Action::Suspend2,
 ];
@@ -353,6 +355,10 @@ impl Cfg {
             Action::GExpired => {
                 let c = Cond { valid_until: EXPIRED.into(), ..Default::default() };
                 self.grant(nexus, g(Scope::default(), bundle, c, Cons::default(), true, 1, false)).await
+            }
+            Action::GWrite => {
+                let s = Scope { classes: strs(&["public"]), ..Default::default() };
+                self.grant(nexus, g(s, strs(&["read", "create", "update", "archive"]), Cond::default(), Cons::default(), false, 1, false)).await
             }
             Action::GAll2 => self.grant(nexus, g(Scope::default(), bundle, Cond::default(), Cons::default(), false, 2, false)).await,
             Action::GGroup => self.grant(nexus, g(public, bundle, Cond::default(), Cons::default(), false, 0, true)).await,
